@@ -109,6 +109,33 @@ namespace AIToolbox::POMDP {
              * iteration (as if the tolerance had been reached).
              */
             static std::function<bool(const VerifSnapshot &)> & verifObserver();
+
+#define AITOOLBOX_VERIF_SARSOP_EVENTS 1
+            /**
+             * @brief Verification hook: one change of the bounds.
+             *
+             * Init is emitted once before the main loop, Backup at the end of
+             * every backupNode (the new alphavector is the last entry of
+             * lbVList; the upper bound entry is either the corner
+             * ubQ(cornerState, ubAction) or the last point of ubV), LbPrune
+             * and UbPrune after the respective pruning passes. The pointers
+             * always show the bounds as they are after the event.
+             */
+            struct VerifEvent {
+                enum Kind { Init, Backup, LbPrune, UbPrune } kind;
+                const Belief * belief;
+                double LB, UB;
+                bool corner;
+                size_t cornerState, ubAction;
+                const VList * lbVList;
+                const MDP::QFunction * ubQ;
+                const UpperBoundValueFunction * ubV;
+            };
+
+            /**
+             * @brief Verification hook: process-wide observer of every change of the bounds.
+             */
+            static std::function<void(const VerifEvent &)> & verifEventObserver();
 #endif
 
         private:
@@ -509,6 +536,11 @@ namespace AIToolbox::POMDP {
         // ### Begin work ###
         // ##################
 
+#ifdef AITOOLBOX_VERIF
+        if (verifEventObserver())
+            verifEventObserver()(VerifEvent{VerifEvent::Init, &initialBelief, treeStorage_[0].LB, treeStorage_[0].UB, false, 0, 0, &lbVList, &ubQ, &ubV});
+#endif
+
         while (true) {
             // Deep sample a branch of the action/observation trees. The
             // sampled nodes (except the last one where we stop) are added to
@@ -539,6 +571,10 @@ namespace AIToolbox::POMDP {
             // beliefs.
             AI_LOGGER(AI_SEVERITY_DEBUG, "Delta pruning...");
             deltaPrune(lbVList);
+#ifdef AITOOLBOX_VERIF
+            if (verifEventObserver())
+                verifEventObserver()(VerifEvent{VerifEvent::LbPrune, nullptr, treeStorage_[0].LB, treeStorage_[0].UB, false, 0, 0, &lbVList, &ubQ, &ubV});
+#endif
 
             // # Upper Bound Pruning #
 
@@ -578,6 +614,11 @@ namespace AIToolbox::POMDP {
                 "; upper bound: " << treeStorage_[0].UB <<
                 "; alpha vectors: " << lbVList.size() <<
                 "; belief points: " << ubV.first.size());
+
+#ifdef AITOOLBOX_VERIF
+            if (verifEventObserver())
+                verifEventObserver()(VerifEvent{VerifEvent::UbPrune, nullptr, treeStorage_[0].LB, treeStorage_[0].UB, false, 0, 0, &lbVList, &ubQ, &ubV});
+#endif
 
 #ifdef AITOOLBOX_VERIF
             if (verifObserver() && verifObserver()(VerifSnapshot{treeStorage_[0].LB, treeStorage_[0].UB, &lbVList, &ubQ, &ubV}))
@@ -859,11 +900,19 @@ namespace AIToolbox::POMDP {
         for (size_t s = 0; s < pomdp.getS(); ++s) {
             if (checkEqualSmall(node.belief[s], 1.0)) {
                 ubQ(s, maxAction) = node.UB;
+#ifdef AITOOLBOX_VERIF
+                if (verifEventObserver())
+                    verifEventObserver()(VerifEvent{VerifEvent::Backup, &node.belief, node.LB, node.UB, true, s, maxAction, &lbVList, &ubQ, &ubV});
+#endif
                 return;
             }
         }
         ubV.first.push_back(node.belief);
         ubV.second.push_back(node.UB);
+#ifdef AITOOLBOX_VERIF
+        if (verifEventObserver())
+            verifEventObserver()(VerifEvent{VerifEvent::Backup, &node.belief, node.LB, node.UB, false, 0, maxAction, &lbVList, &ubQ, &ubV});
+#endif
     }
 }
 
